@@ -63,7 +63,8 @@ PROPS = {
         dict(kind="macro", profile="C06", preds="ttl,limit,c20", mask="ret,keys,born", quick=300, thorough=8000)]),
     "C07": dict(theorems=["Props/C07.v"], parts=[
         dict(kind="core", profile="C07", mask="keys,queue", preds="c07", quick=Q, thorough=T),
-        dict(kind="macro", profile="C07", preds="order,limit", mask="keys,queue", quick=300, thorough=8000)]),
+        dict(kind="macro", profile="C07", preds="order,limit", mask="keys,queue", quick=300, thorough=8000),
+        dict(kind="sched", mode="order", quick=40, thorough=400)]),
     "C08": dict(theorems=["Props/C08.v"], parts=[
         dict(kind="core", profile="C08", mask="keys,queue,freq", preds="c08", quick=Q, thorough=T),
         dict(kind="macro", profile="C08", preds="score,limit", mask="keys,queue,freq", quick=300, thorough=8000)]),
@@ -774,6 +775,12 @@ def check_sched_case(lines, table):
         rb = [l for l in lines if l.startswith("RB ")]
         if qs and rb and "exec=1" in rb[0] and "exec=1" in qs[-1]:
             problems.append("MISS f%d: the fresh value that thread B stored for the expired key is not served afterwards (%s)" % (f, qs[-1]))
+    if head[1].startswith("lr-"):
+        qs = [l for l in lines if l.startswith("Q ")]
+        rb = [l for l in lines if l.startswith("RB ")]
+        if len(qs) >= 2 and rb and "exec=0" in rb[0] and "exec=1" in qs[-1] and not deadlock:
+            problems.append("ORDER f%d: LRU evicted the key that thread B had looked up while thread A was storing, although other "
+                            "entries were used longer ago than both (%s)" % (f, qs[-1]))
     for l in ds_probes[-2:]:
         if "exec=1" in l:
             problems.append("MISS f%d: after two overlapping first calls for one key, a key that was stored is not served although the cache "
@@ -865,11 +872,13 @@ def part_sched(run, part):
             mine = [p for p in problems if p.startswith("STALE")]
         elif want == "stats":
             mine = [p for p in problems if p.startswith("STATS")]
+        elif want == "order":
+            mine = [p for p in problems if p.startswith("ORDER")]
         else:
             # consistency (C18): values, tracking, limits, panics, calls that never return; needless
             # re-executions (MISS) and statistics belong to C03/C14 and C15
             # (a deadlock is also a call that does not return "the function's value for its own arguments")
-            mine = [p for p in problems if not p.startswith(("MISS", "STATS", "STALE"))]
+            mine = [p for p in problems if not p.startswith(("MISS", "STATS", "STALE", "ORDER"))]
         if dl:
             n_dead += 1
         if mine:
